@@ -163,6 +163,7 @@ static void case_poly(uint64_t seed) {
     if (strstr(desc, "axis-aligned")) vf_add("polygons.axis_aligned", 1);
     if (strstr(desc, "snapped")) vf_add("polygons.vertices_snapped_to_centre_coordinates", 1);
     if (strstr(desc, "hugging")) vf_add("polygons.hugging_cell_corners", 1);
+    if (strstr(desc, "listed twice")) vf_add("polygons.with_a_vertex_listed_twice", 1);
     if (a2.n == 0) vf_add("polygons.empty_result", 1);
     if (a2.n >= 100) vf_add("polygons.100plus_cells", 1);
     vf_maxd("largest_fill", (double)a2.n);
